@@ -63,11 +63,15 @@ theorem layout_bounds (l : FLayout) : l.pBase ≤ l.aBase ∧ l.aBase ≤ l.oBas
 
 /-- the node an argument is bound to lies below the counter -/
 theorem argnode_lt (l : FLayout) {a : String} {n : BNode}
-    (h : (if isPrivate a then nodeAt l.pBase l.params a else nodeAt 0 l.inputs (r.fwdArg a)) = some n) : n.id < l.next := by
+    (h : (if isPrivate a then nodeAt l.pBase l.params a
+          else if isOut a then nodeAt l.oBase l.outputs (outName a)
+          else nodeAt 0 l.inputs (r.fwdArg a)) = some n) : n.id < l.next := by
   have hb := layout_bounds l
   split at h
   · have := nodeAt_lt h; omega
-  · have := nodeAt_lt h; omega
+  · split at h
+    · have := nodeAt_lt h; omega
+    · have := nodeAt_lt h; omega
 
 theorem backnode_lt (l : FLayout) {a : String} {n : BNode}
     (h : (if isPrivate a then nodeAt l.pBase l.params a else nodeAt l.biBase l.backIn a) = some n) : n.id < l.next := by
